@@ -372,8 +372,10 @@ class E2EHarness(RspHarness):
             p["receiver-acks-once"] = spec.seqs_equal(v["b_out"], [spec.PLUS])
         else:
             p["retransmits-once"] = len(v["a_out"]) == 2 and spec.seqs_equal(v["a_out"][0], v["a_out"][1])
-            p["bad-checksum-nacked"] = log["b_out_at_retx"] == 1 and len(v["b_out"]) >= 1 and v["b_out"][0] == spec.MINUS
-            p["bad-packet-not-delivered"] = log["msgs_at_retx"] == 0
+            retx = log["b_out_at_retx"] is not None
+            p["bad-checksum-nacked"] = len(v["b_out"]) >= 1 and v["b_out"][0] == spec.MINUS and \
+                (log["b_out_at_retx"] == 1 if retx else True)
+            p["bad-packet-not-delivered"] = (log["msgs_at_retx"] if retx else len(v["msgs"])) == 0
             p["receiver-nack-then-ack"] = spec.seqs_equal(v["b_out"], [spec.MINUS, spec.PLUS])
         return p
 
@@ -606,7 +608,7 @@ def jobs(tier, seed):
         for cl in _class_splits(n, depth):
             js.append(("mk_e2e", dict(n=n, classes=cl)))
     for n in range((2 if quick else 4) + 1):
-        for cl in _class_splits(n, 0 if n <= 2 else n - 2):
+        for cl in _class_splits(n, 0 if n <= 1 else n - 1):
             js.append(("mk_e2e", dict(n=n, classes=cl, corrupt="cs")))
     for n in range((2 if quick else 3) + 1):
         for cl in _class_splits(n, 0 if n <= 1 else n - 1):
